@@ -297,7 +297,7 @@ QUICK = {
     'C09': ['c09_san_simple_pawn_refused', 'c09_san_into_move_castling_w', 'c09_san_into_move_pawnmove_b', 'c09_san_into_move_pawncapture_w',
             'c09_san_from_move_w_ep', 'c09_san_from_move_b_castling', 'c12_san_parse_total_5'],
     'C10': _g('c10_uci_struct_roundtrip', [(sd, g) for sd in 'wb' for g in ('king', 'pawn', 'knight', 'bishop', 'rook', 'queen', 'pspecial', 'ep', 'castling')])
-           + ['c10_uci_accept_semi_w', 'c10_uci_accept_legal_b', 'c10_uci_accept_make_w', 'c10_uci_parse_exact'],
+           + ['c10_uci_accept_semi_w', 'c10_uci_parse_exact'],
     'C11': ['c11_validate_exact_w', 'c11_validate_exact_b'],
     'C12': ['c12_coord_parse', 'c12_coord_roundtrip', 'c12_color_parse', 'c12_cell_parse', 'c12_castling_parse', 'c12_castling_roundtrip',
             'c12_san_parse_total_5', 'c10_uci_parse_exact'],
